@@ -7,12 +7,16 @@
                    feessat <amt> <base> <prop>         -> <n>
                    maxhtlc <kind> <a> <b> <shift>      -> <n>     kind: exact adv total inf hint unknown
                    recompute <value> <n> (<base> <prop> <min>)*   -> ok <ret> <fee_msat>* | panic
-   ops (c16router): route <req> X <k> <scid>* G <n> (<chan>)* R <k> (<nhops> (<scid> <node> <fee> <cltv>)*)*
+   ops (c16router): route <req> X <k> <scid>* B <k> <idx>* G <n> (<chan>)* R <k> (<nhops> (<scid> <node> <fee> <cltv> <blinded>)*)*
                                                        -> valid|invalid <clause>  recur=eq|ne|skip
-                   noroute <req> X <k> <scid>* G <n> (<chan>)*     -> ref=found | ref=none
-     <req>  = <payer> <payee> <amt> <maxfee|-> <maxcltv> <maxpaths> <maxlen> <finalcltv> <mpp> <satpow> <scorer> <seed>
+                   noroute <req> X <k> <scid>* B <k> <idx>* G <n> (<chan>)*     -> ref=found | ref=none
+                   matchscid <alias|-> <scid|-> <hint_scid>   -> 0|1   (generated `matches_an_scid`)
+     <req>  = <payer> <payee> <amt> <maxfee|-> <maxcltv> <maxpaths> <maxlen> <finalcltv> <hasfirst> <mpp> <satpow> <scorer> <seed>
               (the last four are replay information for the harness, ignored here)
-     <chan> = <scid> <src> <dst> <enabled> <htlcmin> <htlcmax> <cap_msat|-> <base> <prop> <cltv> -/
+     <chan> = <kind> <scid> - <src> <dst> <enabled> <htlcmin> <htlcmax|-> <cap_msat|-> <base> <prop> <cltv>
+              kind: p PublicHop, f FirstHop, h PrivateHop, b Blinded, o OneHopBlinded; htlcmax `-` = none;
+              a FirstHop gives the raw ChannelDetails ids instead: f <outbound_scid_alias|-> <short_channel_id|-> …;
+              all fields are the RAW data (the generated candidate_* tables decide what the router reads) -/
 import LdkModel.Driver.Util
 import LdkModel.Model.RouteValid
 namespace Ldk.Driver
@@ -67,16 +71,25 @@ def takeNats : Nat → List String → List Nat → Option (List Nat × List Str
 
 def parseChans : Nat → List String → List Chan → Option (List Chan × List String)
   | 0, ws, acc => some (acc.reverse, ws)
-  | n + 1, s :: a :: b :: e :: mn :: mx :: cap :: base :: prop :: cltv :: rest, acc =>
-    parseChans n rest ({ scid := nat! s, src := nat! a, dst := nat! b, enabled := e == "1", htlcMin := nat! mn,
-                         htlcMax := nat! mx, cap := optNat cap, base := nat! base, prop := nat! prop,
-                         cltv := nat! cltv } :: acc)
+  | n + 1, k :: s :: alt :: a :: b :: e :: mn :: mx :: cap :: base :: prop :: cltv :: rest, acc =>
+    let kind : Option CandidateKind :=
+      if k == "p" then some .publicHop else if k == "f" then some .firstHop else if k == "h" then some .privateHop
+      else if k == "b" then some .blinded else if k == "o" then some .oneHopBlinded else none
+    -- a first hop comes with the raw ChannelDetails ids: <outbound_scid_alias|-> <short_channel_id|->
+    let ids : Option (Nat × Option Nat) :=
+      if k == "f" then firstHopIds (optNat s) (optNat alt) else some (nat! s, none)
+    match kind, ids with
+    | some kind, some (scid, alt) =>
+      parseChans n rest ({ scid := scid, src := nat! a, dst := nat! b, enabled := e == "1", htlcMin := nat! mn,
+                           htlcMax := (optNat mx).getD 0, cap := optNat cap, base := nat! base, prop := nat! prop,
+                           cltv := nat! cltv, kind := kind, alt := alt, unbounded := mx == "-" } :: acc)
+    | _, _ => none
   | _, _, _ => none
 
 def parseHops : Nat → List String → List RHop → Option (RPath × List String)
   | 0, ws, acc => some (acc.reverse, ws)
-  | n + 1, s :: nd :: f :: c :: rest, acc =>
-    parseHops n rest ({ scid := nat! s, node := nat! nd, fee := nat! f, cltv := nat! c } :: acc)
+  | n + 1, s :: nd :: f :: c :: b :: rest, acc =>
+    parseHops n rest ({ scid := nat! s, node := nat! nd, fee := nat! f, cltv := nat! c, blinded := b == "1" } :: acc)
   | _, _, _ => none
 
 def parsePaths : Nat → List String → List RPath → Option (Route × List String)
@@ -87,18 +100,22 @@ def parsePaths : Nat → List String → List RPath → Option (Route × List St
     | none => none
   | _, _, _ => none
 
-/-- `<req> X <k> <scid>* G <n> <chan>*` → (params, graph, remaining tokens) -/
+/-- `<req> X <k> <scid>* B <k> <idx>* G <n> <chan>*` → (params, graph, remaining tokens) -/
 def parseReq (ws : List String) : Option (Params × Graph × List String) :=
   match ws with
-  | payer :: payee :: amt :: maxfee :: maxcltv :: maxpaths :: maxlen :: finalcltv :: _mpp :: _sat :: _scorer :: _seed :: "X" :: k :: rest =>
+  | payer :: payee :: amt :: maxfee :: maxcltv :: maxpaths :: maxlen :: finalcltv :: hasfirst :: _mpp :: _sat :: _scorer :: _seed :: "X" :: k :: rest =>
     match takeNats (nat! k) rest [] with
-    | some (excl, "G" :: n :: rest') =>
-      match parseChans (nat! n) rest' [] with
-      | some (g, rest'') =>
-        some ({ payer := nat! payer, payee := nat! payee, amount := nat! amt, maxFee := optNat maxfee,
-                maxCltv := nat! maxcltv, maxPaths := nat! maxpaths, maxLen := nat! maxlen,
-                finalCltv := nat! finalcltv, excluded := excl }, g, rest'')
-      | none => none
+    | some (excl, "B" :: kb :: restb) =>
+      match takeNats (nat! kb) restb [] with
+      | some (exclB, "G" :: n :: rest') =>
+        match parseChans (nat! n) rest' [] with
+        | some (g, rest'') =>
+          some ({ payer := nat! payer, payee := nat! payee, amount := nat! amt, maxFee := optNat maxfee,
+                  maxCltv := nat! maxcltv, maxPaths := nat! maxpaths, maxLen := nat! maxlen,
+                  finalCltv := nat! finalcltv, excluded := excl, hasFirst := hasfirst == "1",
+                  excludedBlinded := exclB }, g, rest'')
+        | none => none
+      | _ => none
     | _ => none
   | _ => none
 
@@ -118,6 +135,7 @@ def c16router : Drv where
       ((), match parseReq rest with
            | some (p, g, []) => if singlePathExists g p then "ref=found" else "ref=none"
            | _ => "bad-op")
+    | ["matchscid", a, s, h] => ((), if matches_an_scid (optNat a) (optNat s) (nat! h) then "1" else "0")
     | _ => ((), "bad-op")
 
 end Ldk.Driver
